@@ -71,6 +71,14 @@ answers of `new small`, `write`, `writeseg`, `sum` carry the literal model's obs
 chained digest of these snapshots after EVERY call), which the Go runner reads off the real
 `hashTrieWriter` through the `verif` hook `hashtrie.VerifPeek`.
 
+`leaves <n> <span> <seed>` (only in `new small` mode, elsewhere `noleaves`): `n` `ChainWrite` calls on the hash-trie writer
+ITSELF with `Span = le64 span` (any `span < 2^64`) and the `i`-th 32-byte piece of `genBytes seed (32 n)` as reference — the
+leaves' data never reaches that writer, so spans of `2^32` and more are reached without data.  The entries go to the list
+model (`HashTrie.feedEntry`, spans unbounded `Nat`, only `le64 span` = the bytes of `span mod 2^64` enters chunks) and the literal
+model (`uint64` sums as in Go); answer `<n> cw=… cur=… f=… live=… h=…` as for `write`.  After a `leaves` op `sum` is the
+writer's own `Sum` (feeder bypassed), the specification evaluated is `rootG (wrapE cref) B` over all leaf entries the trie was
+given, and the answer ends in `rs=<span header of the stored root chunk | ->`.
+
 The chunk reference function is `fastBmt` (ByteArray BMT over `Driver.Fast.keccak`), memoised per
 case on the chunk content.  It is cross-checked against the list model `Aurora.Cac.hashWith` by the
 `selftest` op.
@@ -225,10 +233,9 @@ def Lit.init (_ : Unit) : Lit :=
 def Lit.flush (l : Lit) : Lit × String :=
   ({ l with n := 0, h := 0 }, s!"cw={l.n} {l.last} h={hex64 l.h}")
 
-/-- one data chunk: `ChainWrite(le64 span, ref, nil)` on the literal writer -/
-def Lit.feed (P : Aurora.HashTrieBuf.Params) (cref : Bytes → Bytes → Bytes) (l : Lit) (payload : Bytes) : Lit :=
+/-- one leaf entry: `ChainWrite(le64 span, ref, nil)` on the literal writer -/
+def Lit.feedE (P : Aurora.HashTrieBuf.Params) (l : Lit) (e : Entry) : Lit :=
   if l.failed then l else
-  let e := leafEntry cref payload
   match Aurora.HashTrieBuf.chainWrite P l.s (Aurora.Cac.le64 e.span) e.ref [] with
   | .error _ => { l with failed := true }.snap
   | .ok s' => { l with s := s' }.snap
@@ -268,6 +275,8 @@ structure St where
   ppH : UInt64 := 0                           -- chained digest of them
   feed : Bool := false                        -- `new feed`: writes are collected, `FeedPipeline` runs at `sum`
   litBad : Bool := false                      -- it disagreed with the list model
+  leaves : Bool := false                      -- `new small`: a `leaves` op wrote to the trie directly (`sum` = the trie's `Sum`)
+  entsRev : List Entry := []                  -- `new small`: every leaf entry given to the trie, newest first
 
 def St.params (st : St) : Nat × Nat :=
   match st.mode with
@@ -299,14 +308,20 @@ def St.memoise (st : St) (chunks : List Bytes) : St := Id.run do
 def St.litParams (st : St) : Aurora.HashTrieBuf.Params :=
   Aurora.HashTrieBuf.plainParams st.cref st.params.2 Aurora.Tree.hashBytes
 
-/-- feed the chunks of one op to the literal writer and compare it with the list model `u` -/
-def St.litStep (st : St) (chunks : List Bytes) (u : Upload) (checkPuts : Bool := true) : St :=
+/-- feed the leaf entries of one op (`nLeafPuts` of them came with a `Put` of their own data chunk) to the
+    literal writer and compare it with the list model `u` -/
+def St.litStepE (st : St) (es : List Entry) (nLeafPuts : Nat) (u : Upload) (checkPuts : Bool := true) : St :=
   match st.lit with
   | none => st
   | some l =>
-    let l := chunks.foldl (Lit.feed st.litParams st.cref) l
-    let ok := l.agrees st.litParams u chunks.length checkPuts
+    let l := es.foldl (Lit.feedE st.litParams) l
+    let ok := l.agrees st.litParams u nLeafPuts checkPuts
     { st with lit := some (if checkPuts then { l with nsent := l.s.sent.length } else l), litBad := st.litBad || !ok }
+
+/-- feed the chunks of one op to the literal writer and compare it with the list model `u` -/
+def St.litStep (st : St) (chunks : List Bytes) (u : Upload) (checkPuts : Bool := true) : St :=
+  if st.lit.isNone then st else
+  st.litStepE (chunks.map (leafEntry st.cref)) chunks.length u checkPuts
 
 /-- the `cw= cur= f= live= h=` field of `new small` mode -/
 def St.litField (st : St) : St × String :=
@@ -327,6 +342,9 @@ def St.write1 (st : St) (b : Bytes) : St × Option Int :=
   let st := st.memoise chunks
   let (u, n) := st.up.write st.cref c bb b
   let st := st.litStep chunks u
+  let st := match st.mode with
+    | .small _ _ => { st with entsRev := (chunks.map (leafEntry st.cref)).reverse ++ st.entsRev }
+    | _ => st
   ({ st with up := u, segsRev := b :: st.segsRev }.drain, n)
 
 /-- a piece left the ChunkPipe (= one `Read` of `FeedPipeline`): count it, chain its length and digest -/
@@ -530,6 +548,26 @@ def step (st : St) (opl : List String) : St × String :=
         let (st, f) := st.litField
         (st, toString n ++ f)
       | none => if st.litBad then (st, "BUF-LIST-MISMATCH") else ({ st with failed := true }, "err")
+  | ["leaves", n, span, seed] =>
+    match n.toNat?, span.toNat?, seed.toNat? with
+    | some n, some span, some seed =>
+      if n < 1 ∨ n > 20000 ∨ span ≥ 2 ^ 64 ∨ seed ≥ 2 ^ 32 then (st, "bad-op") else
+      match st.mode with
+      | .small _ bb =>
+        if st.summed then (st, "summed") else
+        if st.failed then (st, "err") else
+        -- the same (span, reference) leaves as the Go runner: reference i = bytes [32i, 32i+32) of genBytes seed
+        let refs := (Driver.genBytes seed (32 * n)).toArray
+        let es := (List.range n).map fun i => (⟨span, (refs.extract (32 * i) (32 * i + 32)).toList⟩ : Entry)
+        let u := es.foldl (feedEntry st.cref bb) st.up
+        let st := { st with leaves := true }.litStepE es 0 u
+        let st := { st with up := u, entsRev := es.reverse ++ st.entsRev }.drain
+        if st.litBad then (st, "BUF-LIST-MISMATCH") else
+        if u.failed then ({ st with failed := true }, "err") else
+        let (st, f) := st.litField
+        (st, toString n ++ f)
+      | _ => (st, "noleaves")
+    | _, _, _ => (st, "bad-op")
   | ["writeseg", src, k] =>
     if st.summed then (st, "summed") else
     if st.failed then (st, "err") else
@@ -569,9 +607,10 @@ def step (st : St) (opl : List String) : St × String :=
     | some st =>
     let st := st.pipeClose
     let (c, bb) := st.params
-    let chunks := (Aurora.Feeder.sum st.up.feeder).2
+    -- after a `leaves` op `sum` is the hash-trie writer's own `Sum` (the feeder is bypassed)
+    let chunks := if st.leaves then [] else (Aurora.Feeder.sum st.up.feeder).2
     let st := st.memoise chunks
-    let (u, r) := st.up.sum st.cref bb
+    let (u, r) := if st.leaves then (let (u, e) := st.up.sumTrie st.cref bb; (u, e.map Entry.ref)) else st.up.sum st.cref bb
     -- the literal writer: the flushed chunks, then `Sum()`
     let st := st.litStep chunks u false
     let (st, litRef) : St × Option Bytes :=
@@ -595,13 +634,23 @@ def step (st : St) (opl : List String) : St × String :=
     | none => ({ st with failed := true }, "err")
     | some ref =>
       let data := st.segsRev.reverse.flatten
-      let spec := Spec.root st.cref c bb data
+      -- the format specification: over the bytes, or (after `leaves`) the same bottom-up grouping `rootG`
+      -- over the leaf entries the trie was given
+      let spec := if st.leaves then
+          let es := st.entsRev.reverse
+          (rootG (wrapE st.cref) bb es.length es).map Entry.ref
+        else Spec.root st.cref c bb data
       let st := { st with root := some ref }
       if spec ≠ some ref then
         (st, s!"SPEC-MISMATCH model={Driver.bytesToHex ref} spec={match spec with | some s => Driver.bytesToHex s | none => "none"}")
       else
         let (st, f) := st.litField
-        (st, s!"ok {Driver.bytesToHex ref} {st.nputs} {hex64 st.pdig}" ++ f ++ st.ppField)
+        -- after `leaves`: the span header of the stored root chunk (`-`: the root is a leaf, nothing stored)
+        let rs := if !st.leaves then "" else
+          match st.store.get? ref with
+          | some d => s!" rs={fromLe64 d}"
+          | none => " rs=-"
+        (st, s!"ok {Driver.bytesToHex ref} {st.nputs} {hex64 st.pdig}" ++ f ++ st.ppField ++ rs)
   | ["open"] =>
     match st.root with
     | none => (st, "nosum")
